@@ -111,3 +111,21 @@ prop("C06",
                 "encoding' needs C05 and C01.",
      not_decided=["prescan byte parser against the standard's prescan algorithm", "tree equality after restart (C01/C05)"],
      explanation="encoding decision functions under contract with codecs as abstract values")
+
+
+prop("C05",
+     level="proof",
+     level_text="Proof that the real HTMLUnicodeInputStream implements the stream interface contract the tokenizer proofs "
+                "assume, for EVERY segmentation of the source into reads (read(n) may return any non-empty prefix up to n) and "
+                "every internal chunk size >= 1: readChunk neither loses nor invents text and keeps the representation "
+                "invariant (a CR LF pair or surrogate pair cut by a read boundary is held back); char() returns the first "
+                "character of the remaining normalised text; unget() puts it back; charsUntil() returns the maximal run "
+                "(loop invariant; quick tier: three representative character sets, thorough: all thirteen the tokenizer "
+                "passes); reset() re-initialises every field a parse writes.",
+     level_note="Trusted: pyvc, z3/cvc5. Assumed lemmas about str.replace-based newline normalisation (split_safe, "
+                "norm_basics in spec/stream.py), exercised natively; the library contract of re match for a one-class-plus "
+                "pattern. Not decided in this revision: line/column positions (position/_position), the per-chunk "
+                "invalid-codepoint error positions (known finding), byte streams (BufferedStream, codecs incremental decoding "
+                "assumed chunk-independent), termination of the charsUntil loop.",
+     not_decided=["position()/_position arithmetic", "BufferedStream and byte-level decoding", "termination of charsUntil"],
+     explanation="the stream class is proved against the same contract text the tokenizer proofs assume")
